@@ -218,9 +218,14 @@ func (h *hist) membership(a *hx.Node) {
 func (h *hist) requestJoin(a *hx.Node) {
 	o := h.w.AddKey()
 	p := h.w.Peers[o]
-	itx := hg.NewInternalTransactionJoin(*peers.NewPeer(p.PubKeyHex, p.NetAddr, p.Moniker))
-	itx.Sign(h.w.Privs[o])
-	if h.rng.Intn(5) == 0 {
+	mk := func() hg.InternalTransaction {
+		itx := hg.NewInternalTransactionJoin(*peers.NewPeer(p.PubKeyHex, p.NetAddr, p.Moniker))
+		itx.Sign(h.w.Privs[o]) // ECDSA signatures are randomised: a second request has the same body and another signature
+		return itx
+	}
+	itx := mk()
+	refused := h.rng.Intn(5) == 0
+	if refused {
 		h.w.Refused[h.w.ItxID(&itx)] = true
 		h.actions["join-refused-by-app"]++
 	} else {
@@ -228,6 +233,25 @@ func (h *hist) requestJoin(a *hx.Node) {
 	}
 	a.Core.AddInternalTransaction(itx)
 	h.actions["join-request"]++
+	if h.rng.Intn(3) == 0 {
+		// the joiner got no answer in time and asks again through another validator: the same request body under a fresh
+		// signature travels in another validator's event, often with the same round-received (the second one finds the
+		// peer already in the set, or pending)
+		others := []*hx.Node{}
+		for _, b := range h.nodes {
+			if b != a && !b.Silent && !b.PendingFF {
+				others = append(others, b)
+			}
+		}
+		if len(others) > 0 {
+			itx2 := mk()
+			if refused {
+				h.w.Refused[h.w.ItxID(&itx2)] = true
+			}
+			others[h.rng.Intn(len(others))].Core.AddInternalTransaction(itx2)
+			h.actions["join-request-retried"]++
+		}
+	}
 }
 
 func (h *hist) requestLeave(a *hx.Node) {
